@@ -5,6 +5,7 @@ func init() {
 		ID:    "C12",
 		Title: "Go data passed to a render is visible in the template with the same structure",
 		Rules: []string{
+			"R-USERCODE: the data conversion calls no method of a data value: structs, maps and pointers are visible by their fields and keys whatever methods they have",
 			"R-LITERAL: the identifier alphabet (names of fields and keys reachable by dot)",
 			"R-KINDS (literal keys): the object a string literal evaluates to holds the text as written (no escaping at evaluation), so that a key is looked up under its name",
 			"R-UTF8 (names): every slice of a string in the evaluator's own functions has bounds on character boundaries (the first-letter fallback of field names)",
@@ -18,6 +19,7 @@ func init() {
 		NotDecided:  "TODO",
 		Assumptions: trustedBase,
 		Run: func(m *Model, s *Sink) {
+			m.RunNoUserMethods(s, "R-USERCODE")                              // structs, maps and pointers are converted by their structure whatever methods they have
 			m.RunLiteral(s, "R-LITERAL")                                     // a field name such as Col9 is one identifier
 			m.RunLiteralKey(s, "R-KINDS")                                    // the name in m["..."] reaches the lookup as written
 			m.RunNameCuts(s, "R-UTF8")                                       // the lower-cased-first-letter fallback works on letters, not bytes
